@@ -94,8 +94,11 @@ def space_of(term: P):
             return "frac"
         if cn == ".to_cartesian":
             return "cart"
-        if cn in ("numpy.array", "numpy.asarray") and a[2]:
+        if cn in ("numpy.array", "numpy.asarray", "numpy.atleast_2d", "numpy.atleast_1d", "numpy.ascontiguousarray", "numpy.asanyarray",
+                  "numpy.max", "numpy.min", "numpy.amax", "numpy.amin", "numpy.vstack", "numpy.copy") and a[2]:
             return space_of(a[2][0])
+        if cn in (".max", ".min", ".copy", ".reshape", ".astype") and isinstance(a[1], P) and a[1].as_atom() and a[1].as_atom()[0] == "attr":
+            return space_of(a[1].as_atom()[1])      # reductions / copies stay in the space of what they are taken of
         return None
     if a[0] == "attr":
         if a[2] == "positions":
